@@ -9,13 +9,37 @@ COMMON = [
 ]
 
 PROPS = {
+    "C06": dict(level="exploration", shards=(2, 16), timeout=(300, 1500), assumptions=COMMON),
+    "C15": dict(level="exploration", shards=(2, 16), timeout=(300, 1500), assumptions=COMMON, fuzz=[("FuzzC15", 60)]),
     "C17": dict(level="exploration", shards=(2, 16), timeout=(300, 1500), assumptions=COMMON),
+    "C19": dict(level="exploration", shards=(2, 16), timeout=(300, 1500), assumptions=COMMON),
+    "C20": dict(level="exploration", shards=(2, 16), timeout=(300, 1500), assumptions=COMMON),
 }
 
 NOT_APPLICABLE = {}
 
 # Texts for MANIFEST.json
 TEXT = {
+    "C06": dict(
+        technique="property-based differential test (rapid): generated route tables and packets against a reference router",
+        level_text="Exploration: generated route tables (0-6 routes, every conjunction of name/type/namespace matchers) and packets of every kind are dispatched through the real Router.route (verif export) and compared with a reference router written from the package comment: first accepting route only, exactly once; one feature-not-implemented error for unhandled IQ get/set and no reply otherwise. 50k cases quick, 3M thorough; matchers are biased so that >40% of cases have several accepting routes or none.",
+        level_note="Bounded table size (6) and a fixed alphabet of names/types/namespaces; IQs with an unknown (unregistered) payload are never matched against a namespace matcher naming that namespace, because that behaviour is not documented. Packets come from the library's own parser.",
+    ),
+    "C15": dict(
+        technique="property-based test (rapid) against a reference JID parser + Full()/Bare() round trip; native go fuzzing in the thorough tier",
+        level_text="Exploration: strings built from (local, domain, resource) triples over accepted and every rejected character class, plus arbitrary strings, are parsed by stanza.NewJid and compared with a reference parser written from the statement; every accepted JID is rendered with Full() and Bare() and parsed again. 200k cases quick, 8M + 60 s native fuzzing thorough.",
+        level_note="Characters the code does not name but RFC 7622 forbids (e.g. '&') get the round-trip assertion only; strings with '/' before the first '@' are excluded as the property says (counted in the evidence).",
+    ),
+    "C19": dict(
+        technique="property-based test (rapid) against an exact math/big reference of min(cap, base*factor^n)",
+        level_text="Exploration: generated (base, factor, cap, jitter) settings over the whole range whose millisecond value fits a time.Duration, attempt numbers up to 10^6 (far beyond float64 overflow), queried both through durationForAttempt(n) on fresh and used structures and through stateful duration()/reset() sequences, compared with an exact big-integer reference: equality and monotonicity without jitter, 0 <= d <= reference with jitter, never negative or above the cap.",
+        level_note="Uses the verif export VerifBackoff (thin forwarder to the unexported backoff). Above 2^53 a relative tolerance of 2^-39 is allowed for float64 rounding. With jitter only the bounds can be asserted.",
+    ),
+    "C20": dict(
+        technique="property-based test (rapid): generated address forms, oracle net.SplitHostPort + expected host/port/transport type",
+        level_text="Exploration: generated DNS names, IPv4 and IPv6 literals of eight shapes (bracketed or bare, zones, IPv4-mapped, either case) crossed with port absent/present (0-65535) and ws:// / wss:// URLs are passed to NewClientTransport and NewComponentTransport; the dialled address must split into the given host and the explicit port or 5222, and the scheme must select/refuse the WebSocket transport.",
+        level_note="Bare IPv6 directly followed by :port is excluded (ambiguous, per the property) and counted; a host literally named ws/wss with a port is excluded as ambiguous with the URL scheme.",
+    ),
     "C17": dict(
         technique="stateful model-based property test (rapid): generated operation sequences against a reference slice",
         level_text="Exploration: every generated operation sequence (20k quick / 2M thorough) is applied to stanza.UnAckQueue and to a reference FIFO and compared after every step (return values, contents, peek purity, strictly increasing ids). The property quantifies over all histories; generated search with shrinking is the family's direct tool and the state space (queue contents x k classes) is small enough that short sequences cover every branch of the six methods.",
